@@ -305,9 +305,23 @@ def check(chk):
                 good = True
     chk.judge(good, 'C10.decode', pm, 'decode failure: callback(exc), defunct(exc), return', 'a decode failure no longer fails its request and the connection')
     # the callback was popped before decoding, so error_all_requests cannot invoke it again
-    si = src(pm)
-    chk.judge(si.index('self._requests.pop(stream_id)') < si.index('decoder(header.version'), 'C10.decode', pm,
-              'the callback is removed from _requests before its response is decoded', 'callback still registered while its response is handled: it can be failed twice')
+    from ..sem import flow_of as _flow10
+    from ..cfg import Flow as _Flow10
+    g10, _f10 = _flow10(pm)
+
+    def _step_pop(n, c):
+        if n.ast is not None and n.kind == 'stmt' and any(isinstance(x, ast.Call) and src(x.func) == 'self._requests.pop' and x.args and src(x.args[0]) == 'stream_id' for x in ast.walk(n.ast)):
+            return True
+        return c
+    fpop = _Flow10(g10, False, _step_pop)
+    uses = [n for n in g10.stmt_nodes() if n.ast is not None and n.kind == 'stmt' and any(isinstance(x, ast.Call) and isinstance(x.func, ast.Name) and x.func.id in ('decoder', 'callback')
+                                                                                          for x in ast.walk(n.ast))]
+    if not uses:
+        raise AnalysisError('process_msg: decoder(...) / callback(...) calls not found')
+    okpop = all(c or fa.knows('stream_id < 0') is True or fa.knows('stream_id in self._continuous_paging_sessions') is True for n in uses for fa, c in fpop.at(n))
+    chk.judge(okpop, 'C10.decode', pm,
+              'the request entry is popped from _requests before its response is decoded and its callback invoked', 'callback still registered while its response is handled: when decoding fails or '
+              'the response is a protocol error the connection is defuncted with the entry still in _requests, and error_all_requests invokes the same callback a second time')
     # "no later response is delivered": the read loop stops at the first step that failed the connection
     chk.rule('C10.later', 'process_io_buffer delivers nothing after a step that made the connection defunct (is_defunct tested between the failing step and the next delivery)')
     chk.borrow('C06', {'C06.stop': 'C10.later'}, 'frames that follow the failing one in the same read are still handed to process_msg: a continuous paging session that was just failed receives a page after its error')
